@@ -60,6 +60,7 @@ class ProjGen:
         self.hostile = hostile
         self.counter = 0
         self.used_src = set()
+        self.excluded_dirs = []
 
     def fresh(self, stem):
         self.counter += 1
@@ -214,6 +215,41 @@ class ProjGen:
                 out.append(line)
                 base = d.rstrip('/') if strip else d.rstrip('/') + '/' + top
                 self.exp('dir', base, subname, tag, tag is not None, mode=None, srcmode=None)
+                for x in ed:
+                    self.excluded_dirs.append(base + '/' + x)
+                    rr = rng.random()
+                    if rr < 0.25:
+                        # another rule of the same project creates the excluded directory at the destination
+                        out.append('install_emptydir(%s)' % mstr(base + '/' + x))
+                        self.exp('dir', base + '/' + x, subname, None, False, mode=None, srcmode=None)
+                    elif rr < 0.4:
+                        p2, f2 = self.new_file('', sub=sub)
+                        out.append('install_data(%s, install_dir: %s)' % (mstr(p2), mstr(base + '/' + x)))
+                        self.exp('file', base + '/' + x + '/' + os.path.basename(p2), subname, None, False,
+                                 digest=digest(f2['content']), srcmode=f2['mode'], mode=None)
+                if strip and dirs and rng.random() < 0.35:
+                    # a second install_subdir into the same install_dir that installs what this one excludes (and vice versa)
+                    top2 = self.fresh('tree')
+                    tree2 = self.gen_tree(top2, sub, like=tree)
+                    dirs2 = [t['rel'] for t in tree2 if t.get('dir') and t['rel']]
+                    ed2 = [x for x in dirs2 if x not in ed and rng.random() < 0.5]
+                    line2 = 'install_subdir(%s, install_dir: %s, strip_directory: true' % (mstr(top2), mstr(d))
+                    if ed2:
+                        line2 += ', exclude_directories: [%s]' % ', '.join(mstr(x) for x in ed2)
+                    out.append(line2 + ')')
+
+                    def excl2(rel, isdir):
+                        parts = rel.split('/')
+                        return any('/'.join(parts[:i]) in ed2 for i in range(1, len(parts) + (1 if isdir else 0)))
+                    for t in tree2:
+                        if not t['rel'] or excl2(t['rel'], bool(t.get('dir'))):
+                            continue
+                        if t.get('dir'):
+                            self.exp('dir', base + '/' + t['rel'], subname, None, False, mode=None, srcmode=t['mode'])
+                        else:
+                            self.exp('file', base + '/' + t['rel'], subname, None, False, digest=digest(t['content']), srcmode=t['mode'], mode=None)
+                    for x in ed2:
+                        self.excluded_dirs.append(base + '/' + x)
 
                 def excluded(rel, isdir):
                     parts = rel.split('/')
@@ -231,11 +267,16 @@ class ProjGen:
                                  srcmode=t['mode'], mode=mb)
         return out
 
-    def gen_tree(self, top, sub):
+    def gen_tree(self, top, sub, like=None):
         rng = self.rng
         tree = [{'rel': '', 'dir': True, 'mode': 0o755}]
         dirs = ['']
-        for _ in range(rng.choice([0, 1, 2, 3])):
+        if like is not None:
+            for t in like:
+                if t.get('dir') and t['rel']:
+                    dirs.append(t['rel'])
+                    tree.append({'rel': t['rel'], 'dir': True, 'mode': t['mode']})
+        for _ in range(rng.choice([0, 1, 2, 3, 4]) if like is None else 0):
             parent = rng.choice(dirs)
             nm = rng.choice(DIR_NAMES)
             rel = (parent + '/' + nm) if parent else nm
@@ -244,8 +285,8 @@ class ProjGen:
             dirs.append(rel)
             tree.append({'rel': rel, 'dir': True, 'mode': rng.choice([0o755, 0o750, 0o700, 0o775])})
         seen = set()
-        for _ in range(rng.choice([0, 1, 2, 3, 4, 6])):
-            parent = rng.choice(dirs)
+        for _ in range(rng.choice([1, 2, 3, 4, 6, 8])):
+            parent = rng.choice(dirs[1:] or dirs) if rng.random() < 0.6 else rng.choice(dirs)
             nm = rng.choice(SRC_NAMES)
             rel = (parent + '/' + nm) if parent else nm
             if rel in seen or rel in dirs:
@@ -284,7 +325,7 @@ class ProjGen:
         for h in range(nhist):
             hists.append(self.history(h, subs, alltags))
         return {'idx': self.idx, 'files': self.files, 'prebuilt': self.prebuilt, 'setup_args': args, 'expect': self.expect,
-                'histories': hists, 'hostile': self.hostile, 'subprojects': subs}
+                'histories': hists, 'hostile': self.hostile, 'subprojects': subs, 'excluded_dirs': self.excluded_dirs}
 
     def inst(self, **kw):
         d = {'op': 'install'}
@@ -365,6 +406,10 @@ class ProjGen:
                     pre.append({'path': p, 'link': 'stale'})
                 elif r < 0.6:
                     pre.append({'path': p, 'content': 'FILE-IN-THE-WAY', 'mode': 0o644, 'mtime': 1300000000})
+        for x in self.excluded_dirs:
+            if rng.random() < 0.5 and '..' not in x.split('/'):
+                px = ('@D@' + x) if x.startswith('@ROOT@') else '@PFX@/' + x
+                pre.append({'path': px, 'dir': True, 'mode': rng.choice([0o755, 0o700])})
         # keep the first occurrence of every path; drop entries below a path that is a file/link
         seen, out = {}, []
         for f in pre:
@@ -447,6 +492,26 @@ def corpus_projects():
                     [{'pre': [{'path': '@PFX@/share/p/a.txt', 'link': '@ROOT@/outside/escaped.txt'}, {'path': '@ROOT@/outside', 'dir': True, 'mode': 0o755}],
                       'steps': [{'op': 'install'}, {'op': 'uninstall'}]},
                      {'pre': [{'path': '@PFX@/share/p/a.txt', 'link': 'stale'}], 'steps': [{'op': 'install', 'dry': True}, {'op': 'install'}, {'op': 'uninstall'}]}]))
+    # 7: exclusions hold whatever exists at the destination: the excluded directory is created by another rule
+    #    (so it exists at the second install), exists beforehand, or is installed by a sibling install_subdir
+    tree7 = [{'path': 't', 'dir': True, 'mode': 0o755}, {'path': 't/ex', 'dir': True, 'mode': 0o755}, {'path': 't/ex/deep', 'dir': True, 'mode': 0o755},
+             {'path': 't/ex/gone', 'content': 'G', 'mode': 0o644, 'mtime': 1400000000}, {'path': 't/ex/deep/gone2', 'content': 'G2', 'mode': 0o644, 'mtime': 1400000000},
+             {'path': 't/keep', 'content': 'K', 'mode': 0o644, 'mtime': 1400000000}, {'path': 't/no', 'content': 'NO', 'mode': 0o644, 'mtime': 1400000000},
+             {'path': 'u', 'dir': True, 'mode': 0o755}, {'path': 'u/ex', 'dir': True, 'mode': 0o755}, {'path': 'u/ex/mine', 'content': 'M', 'mode': 0o644, 'mtime': 1400000000}]
+    b7 = dict(sub='', tag=None, tag_known=False)
+    out.append(proj(9007, "install_subdir('u', install_dir: 'share/s', strip_directory: true)\n"
+                          "install_subdir('t', install_dir: 'share/s', strip_directory: true, exclude_directories: ['ex'], exclude_files: ['no'])\n"
+                          "install_subdir('t', install_dir: 'share/r', strip_directory: true, exclude_directories: ['ex/deep'])\ninstall_emptydir('share/r/ex/deep')",
+                    tree7, [dict(b7, kind='dir', dest='share/s', mode=None, srcmode=None), dict(b7, kind='dir', dest='share/s/ex', mode=None, srcmode=0o755),
+                            dict(b7, kind='file', dest='share/s/ex/mine', digest=digest('M'), srcmode=0o644, mode=None),
+                            dict(b7, kind='file', dest='share/s/keep', digest=digest('K'), srcmode=0o644, mode=None),
+                            dict(b7, kind='dir', dest='share/r', mode=None, srcmode=None), dict(b7, kind='dir', dest='share/r/ex', mode=None, srcmode=0o755),
+                            dict(b7, kind='file', dest='share/r/ex/gone', digest=digest('G'), srcmode=0o644, mode=None),
+                            dict(b7, kind='file', dest='share/r/keep', digest=digest('K'), srcmode=0o644, mode=None),
+                            dict(b7, kind='file', dest='share/r/no', digest=digest('NO'), srcmode=0o644, mode=None),
+                            dict(b7, kind='dir', dest='share/r/ex/deep', mode=None, srcmode=None)],
+                    [{'steps': [{'op': 'install'}, {'op': 'install'}, {'op': 'uninstall'}]},
+                     {'pre': [{'path': '@PFX@/share/r/ex/deep', 'dir': True, 'mode': 0o755}], 'steps': [{'op': 'install'}, {'op': 'uninstall'}]}]))
     return out
 
 
